@@ -1855,3 +1855,8 @@ impl<'de> de::VariantAccess<'de> for Compound<'_, 'de> {
         de::Deserializer::deserialize_struct(&mut *self.de, "_", fields, visitor)
     }
 }
+
+// verification hook: Kani harnesses that need the private decoder state live outside the repository
+#[cfg(kani)]
+#[path = "/verif/kani/incrate/candid_de.rs"]
+mod verif_kani;
